@@ -1138,6 +1138,11 @@ class OFConnection (object):
     #FIXME: Do we need to pass io_worker here?
     while True:
       message = io_worker.peek()
+      if self._closing:
+        # We've given up on this connection (its stream can't be trusted
+        # any more); discard whatever still arrives until it is closed
+        io_worker.consume_receive_buf(len(message))
+        break
       if len(message) < 4:
         break
 
@@ -1269,7 +1274,10 @@ class OFConnection (object):
       message_length = len(message)
     return xid
 
+  _closing = False
+
   def close (self):
+    self._closing = True
     self.io_worker.shutdown()
     if len(self.io_worker.send_buf) == 0:
       # Nothing left to flush, so nothing would ever trigger the shutdown
